@@ -158,6 +158,19 @@ struct BodyFilterAction {
     rule_id: Option<String>,
 }
 
+/// Add query params to a target url, in front of its fragment when it has one
+#[cfg(feature = "router")]
+fn add_query_params(target: &mut String, query_params: &str) {
+    let fragment = target.find('#').map(|position| target.split_off(position));
+
+    target.push(if target.contains('?') { '&' } else { '?' });
+    target.push_str(query_params);
+
+    if let Some(fragment) = fragment {
+        target.push_str(fragment.as_str());
+    }
+}
+
 impl Default for Action {
     fn default() -> Action {
         Action {
@@ -187,13 +200,7 @@ impl Action {
             let mut value = StaticOrDynamic::replace(t.clone(), &variables);
 
             if let Some(skipped_query_params) = request.path_and_query_skipped.skipped_query_params.as_ref() {
-                if value.contains('?') {
-                    value.push('&');
-                } else {
-                    value.push('?');
-                }
-
-                value.push_str(skipped_query_params.as_str());
+                add_query_params(&mut value, skipped_query_params.as_str());
             }
 
             value
@@ -246,13 +253,7 @@ impl Action {
                 let mut value = StaticOrDynamic::replace(target.clone(), &variables);
 
                 if let Some(skipped_query_params) = request.path_and_query_skipped.skipped_query_params.as_ref() {
-                    if value.contains('?') {
-                        value.push('&');
-                    } else {
-                        value.push('?');
-                    }
-
-                    value.push_str(skipped_query_params.as_str());
+                    add_query_params(&mut value, skipped_query_params.as_str());
                 }
 
                 header_filters.push(HeaderFilterAction {
